@@ -67,6 +67,11 @@ type runaway struct{ path string }
 
 const maxLegitDepth = 9
 
+// depthLimit is the runaway bound in force: a single operation can at most hang the deepest existing subtree
+// below the deepest path of the universe, so the session sets it to (deepest entry now) + (deepest universe
+// path) + 1 before every SUT call; never below maxLegitDepth.
+var depthLimit = maxLegitDepth
+
 // faultStore sits between the real FilerStoreWrapper and the real store (the
 // filer.FilerStore interface is an existing seam). It passes everything
 // through, counts mutating calls, fails the armed one, and remembers every
@@ -145,7 +150,7 @@ func (s *faultStore) hit(op, what string) bool {
 }
 
 func (s *faultStore) touch(p util.FullPath) {
-	if strings.Count(string(p), "/") > maxLegitDepth {
+	if strings.Count(string(p), "/") > depthLimit {
 		panic(runaway{string(p)})
 	}
 	s.mu.Lock()
